@@ -57,7 +57,7 @@ impl RuleMaker for RegexRule {
 }
 
 lazy_static! {
-    static ref VALID_REPETITION_QUANTIFIER: Regex = Regex::new("\\{([0-9]+(?:,[0-9]+)?)\\}")
+    static ref VALID_REPETITION_QUANTIFIER: Regex = Regex::new("\\{([0-9]+(?:,[0-9]*)?)\\}")
         .expect("valid repetition quantifier regex must compile");
     static ref MOVED_REPETITION_QUANTIFIER: Regex =
         Regex::new("<<<<(.+?)>>>>").expect("moved repetition quantifier regex must compile");
